@@ -23,7 +23,9 @@ import (
 	"io"
 	"os"
 	"os/exec"
+	"path/filepath"
 	"runtime"
+	"strings"
 	"sync"
 	"time"
 )
@@ -217,6 +219,33 @@ func Guard(f func()) (panicked bool, msg string) {
 		if r := recover(); r != nil {
 			panicked = true
 			msg = fmt.Sprint(r)
+		}
+	}()
+	f()
+	return
+}
+
+// GuardAt is Guard plus the innermost frame of the code under test (module github.com/modernizing/coca, generated
+// parser excluded) on the panicking stack: "file.go:123 funcName". It only labels an observation; no verdict uses it.
+func GuardAt(f func()) (panicked bool, msg string, site string) {
+	defer func() {
+		if r := recover(); r != nil {
+			panicked = true
+			msg = fmt.Sprint(r)
+			pcs := make([]uintptr, 64)
+			n := runtime.Callers(2, pcs)
+			frames := runtime.CallersFrames(pcs[:n])
+			for {
+				fr, more := frames.Next()
+				if strings.Contains(fr.Function, "github.com/modernizing/coca/") && !strings.Contains(fr.File, "/languages/") {
+					fn := fr.Function[strings.LastIndex(fr.Function, "/")+1:]
+					site = fmt.Sprintf("%s:%d %s", filepath.Base(fr.File), fr.Line, fn)
+					break
+				}
+				if !more {
+					break
+				}
+			}
 		}
 	}()
 	f()
